@@ -393,9 +393,12 @@ class TreeGen:
         if d <= 0 or r.random() < 0.15:
             return self.leaf()
         ifns = [f for f in self.fns if f[1] == 'I']
-        k = r.choice(['cnt', 'cnt', 'op', 'coal', 'if', 'set', 'sel', 'sel', 'for', 'grp'] + (['call'] * 3 if ifns else []))
+        k = r.choice(['cnt', 'cnt', 'op', 'coal', 'if', 'set', 'sel', 'sel', 'for', 'grp', 'withuse'] +
+                     (['call'] * 3 if ifns else []))
         if k in ('cnt', 'grp'):
             return (k, self.O(d - 1))
+        if k == 'withuse':
+            return ('withuse', self.any(d - 1))
         if k in ('op', 'coal'):
             return (k, self.I(d - 1), self.I(d - 1))
         if k == 'if':
@@ -652,6 +655,76 @@ def gen_fn_histories(rnd, n):
         if not reqs:
             continue
         out.append({'nb': 0, 'pre': [], 'reqs': reqs, 'tag': 'fn:random'})
+    return out
+
+
+def only_write_bodies(X):
+    """function bodies (sort I) in which the object-sorted write X sits in one particular position; in the
+    entries marked `alone` X is the ONLY write of the body"""
+    N6 = (None,) * 4
+    return [
+        ('with_unused', True, ('sel', [X], L(), None, None, None, None)),
+        ('with_unused_scalar', True, ('sel', [('cnt', X)], ('P',), None, None, None, None)),
+        ('with_used', True, ('withuse', X)),
+        ('with_used_scalar', True, ('withuse', ('cnt', X))),
+        ('with_in_with', True, ('sel', [('sel', [X], L(), None, None, None, None)], L(), None, None, None, None)),
+        ('with_used_in_with', True, ('sel', [('withuse', X)], ('P',), None, None, None, None)),
+        ('for_body_with_used', True, ('for', ('set', [L(), L()]), ('withuse', X))),
+        ('for_body_with_unused', True, ('for', ('P',), ('sel', [X], L(), None, None, None, None))),
+        ('for_iterator', True, ('for', ('cnt', X), L())),
+        ('for_in_for_with', True, ('for', L(), ('for', ('P',), ('withuse', X)))),
+        ('argument_builtin', True, ('cnt', X)),
+        ('argument_user_fn', True, ('call', 1, [('cnt', X)])),
+        ('argument_of_argument', True, ('call', 1, [('call', 1, [('withuse', X)])])),
+        ('limit', True, ('sel', [], L(), None, None, None, ('cnt', X))),
+        ('offset', True, ('sel', [], L(), None, None, ('cnt', X), None)),
+        ('if_else_branch', True, ('if', ('P',), L(), ('cnt', X))),
+        ('if_condition', True, ('if', ('cnt', X), L(), L())),
+        ('coalesce_right', True, ('coal', L(), ('cnt', X))),
+        ('set_element', True, ('set', [L(), ('cnt', X)])),
+        ('group_subject', True, ('grp', X)),
+        ('select_subject_filtered', True, ('cnt', ('selof', X, L(), None))),
+        ('insert_shape', False, ('cnt', ('ins', [], [('cnt', X)], [], None))),
+        ('insert_link', False, ('cnt', ('ins', [], [], [X], None))),
+        ('update_shape', False, ('cnt', ('upd', [], None, [('cnt', X)], []))),
+        ('conflict_else', False, ('cnt', ('ins', [], [], [], ('else', ('upd_same', [('cnt', X)]))))),
+        ('insert_with', False, ('cnt', ('ins', [X], [], [], None))),
+        ('delete_subject', False, ('cnt', ('delof', X))),
+        ('select_shape', True, ('cnt', ('selO', [], [('cnt', X)], [], None, None, None, None))),     # refused
+        ('filter', True, ('sel', [], L(), ('cnt', X), None, None, None)),                             # refused
+        ('order_by', True, ('sel', [], L(), None, ('cnt', X), None, None)),                           # refused
+    ]
+
+
+def gen_fn_only_write(thorough):
+    """a function whose body writes in exactly one, possibly deeply hidden, place -- then called directly,
+    through a second function, in rejecting contexts, and referenced from an alias / computed global /
+    computed property definition"""
+    out = []
+    helper = (1, None, 'I', ('op', ('P',), L(1)))
+    hk = 500
+    for X, xn in ((INS, 'insert'), (UPD, 'update'), (DEL, 'delete')):
+        for name, alone, body in only_write_bodies(X):
+            call2, call3 = ('call', 2, [L()]), ('call', 3, [L()])
+            reqs = [[('Fc', 2, None, 'I', body)],
+                    [('Q', call2)],
+                    [('Fc', 3, None, 'I', ('call', 2, [('P',)]))],
+                    [('Q', call3)],
+                    [('Q', ('sel', [call3], L(), None, None, None, None))],
+                    [('Q', L()), ('Q', ('withuse', call3))],
+                    [('A', call3)],
+                    [('Q', ('selO', [], [call3], [], None, None, None, None))]]
+            out.append({'nb': 0, 'pre': [helper], 'reqs': reqs, 'tag': f'fnw:{name}:{xn}'})
+            if xn == 'insert' and (thorough or name in ('with_unused', 'with_used', 'for_body_with_used', 'conflict_else',
+                                                        'argument_user_fn', 'with_in_with')):
+                pre = [helper, (2, None, 'I', body), (3, None, 'I', ('call', 2, [('P',)]))]
+                for h in (0, 1, 2):
+                    for c in ((call3,) if not thorough else (call2, call3)):
+                        hk += 1
+                        out.append({'nb': 0, 'pre': pre, 'reqs': [[('H', h, hk, c)]], 'tag': f'fnw:holder{h}:{name}'})
+            if not thorough and xn != 'insert' and name not in ('with_unused', 'with_used', 'for_body_with_used',
+                                                                 'argument_user_fn', 'limit', 'conflict_else'):
+                out.pop() if out[-1]['tag'] == f'fnw:{name}:{xn}' else None
     return out
 
 
@@ -912,6 +985,7 @@ def gen_cases(tier):
         cases += gen_kinds(rnd, P_STD, 15, quick=True)
         cases += gen_fn_histories(rnd, 12)
         cases += gen_holders(P_STD, rnd, 0)
+    cases += gen_fn_only_write(thorough)
     cases += gen_wild(P_STD, quick=not thorough)
     cases += gen_malformed(rnd, cases, 400 if thorough else 60)
     return cases
